@@ -245,7 +245,6 @@ static String xl(const char* tok, bool& ok)
 {
   size_t n = 0;
   char* p = hxCStr(tok, n);
-  for(size_t i = 0; i < n; ++i) if(p[i] == '\\') ok = false;
   if(!lexInside(p, n)) ok = false;
   String r;
   if(n && p[0] == '/') r.append(BASE, BASELEN);
@@ -283,6 +282,7 @@ static bool purgeOk(const String& s)
 {
   const char* p = s; size_t n = s.length(), i = 0; bool any = false;
   if(n && p[0] == '/') return false;
+  for(size_t k = 0; k < n; ++k) if(p[k] == '\\') return false;   // purge climbs with File::getDirectoryName, which splits at '\\' too
   while(i < n)
   {
     while(i < n && p[i] == '/') ++i;
